@@ -335,8 +335,10 @@ def partitionVerdict (items : List Item) (atts : List (Nat × List Nat × List N
   let skips := skipIds want
   let all := atts.flatMap (fun (_, l, t) => l ++ t) ++ dets.flatMap (fun (_, sl) => sl.flatten)
   let missing := skips.filter (fun id => !all.contains id)
-  if !missing.isEmpty then s!"fails trivia-dropped n={missing.length} first={missing.headD 0}" else
-  if all.length != skips.length then "fails trivia-duplicated" else
+  if !missing.isEmpty then
+    let kind := if missing.any (fun id => (commentIds want).contains id) then "comment-dropped" else "whitespace-dropped"
+    s!"fails tri:{kind} n={missing.length} first={missing.headD 0}" else
+  if all.length != skips.length then "fails tri:trivia-duplicated" else
   let slots := (dets.flatMap (fun (_, sl) => sl.filter (!·.isEmpty))).map (fun sl => (gapOf (sl.headD 0), sl))
   let natArr := nats.toArray
   let ok := (gaps.zipIdx).all (fun (expected, g) =>
@@ -346,7 +348,7 @@ def partitionVerdict (items : List Item) (atts : List (Nat × List Nat × List N
       match atts.lookup (natArr.getD g 0) with | some (l, _) => l | none => []
     let mid := (slots.filter (fun (sg, _) => sg == g)).flatMap (·.2)
     before ++ mid ++ after == expected)
-  if ok then "holds" else "fails trivia-misplaced"
+  if ok then "holds" else "fails tri:trivia-misplaced"
 
 def causeStr (cs : List String) : String := if cs.isEmpty then "ok" else "+".intercalate cs
 
@@ -373,7 +375,8 @@ def roundtripSpec (line ans : String) : String :=
         let dc := if declOk then "ok" else
           let cs := declCauses env items dps
           if cs.isEmpty then "unexplained" else causeStr cs
-        s!"fails roundtrip file={fc} decls={dc}"
+        let primary := if fileOk then "decls:" ++ ((dc.splitOn "+").headD "?") else (fc.splitOn "+").headD "?"
+        s!"fails rt:{primary} file={fc} decls={dc}"
       | _, _ => "fails bad-answer"
     | _, _, _, _ => "fails bad-answer"
   | _ => "skip"
@@ -435,7 +438,7 @@ def formatSpec (line ans : String) : String :=
         (if !textOk then ["render-text-not-preserved"] else [])
       if cs.isEmpty then
         (if fl.contains "out=ok" && fl.contains "same=1" && fl.contains "idem=1" then "holds" else "fails bad-answer")
-      else "fails format " ++ "+".intercalate cs
+      else s!"fails fmt:{cs.headD "?"} all={"+".intercalate cs}"
     | _ => "fails bad-answer"
   | _ => "skip"
 
